@@ -154,6 +154,8 @@ func (d *Data) GetLabelMutationHistory(w http.ResponseWriter, fromUUID, toUUID d
 	return nil
 }
 
+// processMutationLogStream writes the history entries of one version's log; it signs off on the caller's
+// WaitGroup once, when the stream has ended.
 func processMutationLogStream(w http.ResponseWriter, v dvid.VersionID, ch chan storage.LogMessage, wg *sync.WaitGroup, origBodies, supervoxelSet labels.Set) {
 	numMsgs := 0
 	for msg := range ch { // expects channel to be closed on completion
@@ -165,11 +167,9 @@ func processMutationLogStream(w http.ResponseWriter, v dvid.VersionID, ch chan s
 			var op proto.MergeOp
 			if err := pb.Unmarshal(msg.Data, &op); err != nil {
 				dvid.Errorf("unable to unmarshal cleave message for version %d: %v\n", v, err)
-				wg.Done()
 				continue
 			}
 			if len(op.Merged) == 0 {
-				wg.Done()
 				continue
 			}
 			if _, found := origBodies[op.Target]; found {
@@ -191,11 +191,9 @@ func processMutationLogStream(w http.ResponseWriter, v dvid.VersionID, ch chan s
 			var op proto.CleaveOp
 			if err := pb.Unmarshal(msg.Data, &op); err != nil {
 				dvid.Errorf("unable to unmarshal cleave message for version %d: %v\n", v, err)
-				wg.Done()
 				continue
 			}
 			if len(op.Cleaved) == 0 {
-				wg.Done()
 				continue
 			}
 			if _, found := origBodies[op.Target]; found {
@@ -219,7 +217,6 @@ func processMutationLogStream(w http.ResponseWriter, v dvid.VersionID, ch chan s
 			var op proto.SplitOp
 			if err := pb.Unmarshal(msg.Data, &op); err != nil {
 				dvid.Errorf("unable to unmarshal split log message for version %d: %v\n", v, err)
-				wg.Done()
 				continue
 			}
 			if _, found := origBodies[op.Target]; found {
@@ -243,7 +240,6 @@ func processMutationLogStream(w http.ResponseWriter, v dvid.VersionID, ch chan s
 			var op proto.SupervoxelSplitOp
 			if err := pb.Unmarshal(msg.Data, &op); err != nil {
 				dvid.Errorf("unable to unmarshal split log message for version %d: %v\n", v, err)
-				wg.Done()
 				continue
 			}
 			if _, found := supervoxelSet[op.Supervoxel]; found {
